@@ -332,7 +332,7 @@ pub fn gen_layers(src: &mut Src, share_numbers: bool) -> Vec<RLayer> {
     for i in 0..n {
         let mut num = match src.weighted(&[6, 1]) {
             0 => src.below(40) as i16,
-            _ => *src.pick(&[i16::MAX - 1, 255, 1000]),
+            _ => *src.pick(&[i16::MAX - 1, i16::MAX, 255, 1000]),
         };
         while used.contains(&num) {
             num = num.wrapping_add(1).max(0);
@@ -460,7 +460,9 @@ pub fn gen_rawlib(src: &mut Src, o: &RawGenOpts) -> RLib {
         } else {
             None
         };
-        cells.push(RCell { name: format!("cell{}", ci), has_layout, shapes, insts, annotations, abs });
+        // library cell names run long (foundry kits prefix everything): some beyond 32 characters
+        let name = if src.prob(1, 6) { format!("cell{}_sky130_fd_sc_hd__lpflow_inputisolatch_1", ci) } else { format!("cell{}", ci) };
+        cells.push(RCell { name, has_layout, shapes, insts, annotations, abs });
     }
     let mut listing: Vec<usize> = (0..nc).collect();
     src.shuffle(&mut listing);
